@@ -126,14 +126,22 @@ func TestVerifC08(t *testing.T) {
 	if r.Thorough() {
 		maxCuts = 3
 	}
-	r.SetBound(fmt.Sprintf("all block partitions with <=%d cuts + all uniform block sizes; (npre,nsamp) in {(4,8),(4,14)}; 24 edge-multi configurations (3 modes x threshold sign x nmonotone 1|2 x zero-threshold refinement on|off); 1-3 edges (ramps of 1-3 samples) at start-up, mid-stream and end-of-stream positions and all separations 1..nsamp+2; configured before the first block (differential) or after the first block (crash/shape/excerpt only)", maxCuts))
-	geoms := []vGeom{{4, 8}, {4, 14}}
-	for _, g := range geoms {
+	r.SetBound(fmt.Sprintf("all block partitions with <=%d cuts + all uniform block sizes; (npre,nsamp) in {(4,8),(4,14)} and, with a reduced edge menu, (4,18); 24 edge-multi configurations (3 modes x threshold sign x nmonotone 1|2 x zero-threshold refinement on|off); 1-3 edges (ramps of 1-3 samples) at start-up, mid-stream and end-of-stream positions and all separations 1..nsamp+2; configured before the first block (differential) or after the first block (crash/shape/excerpt only)", maxCuts))
+	// the third geometry has a long post-trigger part (nsamp-npre = 14 > the 10 samples of slack in what is kept
+	// between blocks); it gets a reduced edge menu
+	geoms := []vGeom{{4, 8}, {4, 14}, {4, 18}}
+	for gi, g := range geoms {
 		L := 4*g.nsamp + 14
 		mid := 2*g.nsamp + 3
 		var edgeSets [][]vEdge
 		for ramp := 1; ramp <= 3; ramp++ {
+			if gi == 2 && ramp > 1 && !r.Thorough() {
+				break
+			}
 			for p := 1; p <= g.npre+5; p++ {
+				if gi == 2 && p%3 != 1 {
+					continue
+				}
 				edgeSets = append(edgeSets, []vEdge{{p, ramp}})
 			}
 			edgeSets = append(edgeSets, []vEdge{{mid, ramp}})
